@@ -56,10 +56,25 @@ pub fn run(env: &Env) -> Report {
         let mut rep = Report::new("c05");
         let mut rng = Rng::new(seed.wrapping_mul(2654435761) ^ (ui as u64) << 16);
         let mut t = env.trace(&format!("c05.{}", ui));
+        // a store of REAL learned choices: for a few bases the second candidate, as a commit would store it
+        let mut learned: Vec<(String, String)> = vec![];
+        {
+            let xdg0 = env.fresh_xdg(&format!("c05-{}-learn", ui));
+            t.line(&format!("case c05-{}-learn", ui));
+            let mut o = Opts::none(); o.phonetic_suggestion = true;
+            if let Some(mut s) = Sess::new(&mut t, &env.data, "l", PHONETIC, o, &xdg0) {
+                for b in ["kor", "bol", "din", "desh", "sesh", "onno", "ami", "boi", "manush", "kaj"] {
+                    if let Obs::Full { cands, .. } = s.type_text(&mut t, b) { if cands.len() > 1 { learned.push((b.to_string(), cands[1 + (ui % (cands.len() - 1))].clone())); } }
+                    s.finish(&mut t);
+                }
+                t.line("drop l");
+            }
+        }
+        let real_store: HashMap<String, String> = store_sample().into_iter().chain(learned.iter().cloned()).collect();
         for ti in 0..per {
             let mut opts = Opts::from_bits((rng.next() & 0x7FF) as u32);
             opts.phonetic_suggestion = !rng.chance(15);
-            let with_store = rng.chance(50);
+            let with_store = rng.chance(65);
             // target text
             let w = pools.word(&mut rng);
             let target = match rng.below(10) {
@@ -67,6 +82,7 @@ pub fn run(env: &Env) -> Report {
                 1 => format!("({})", w), 2 => format!("\"{}\"", w), 3 => format!("{}:", w), 4 => format!("{}`", w),
                 5 => { let n = 1 + rng.below(6); from_alphabet(&mut rng, TYPEABLE, n) }
                 6 => format!("{}{}", ["kor", "kore", "ami", "bol", "sob"][rng.below(5)], ["", "e", "er", "i", "ke", "ei"][rng.below(6)]),
+                7 | 8 if !learned.is_empty() => format!("{}{}{}", ["", "(", "\"", "'", "[", "("][rng.below(6)], learned[rng.below(learned.len())].0, ["e", "er", "ke", "gulo", "ta", "ra", "te", "i", "der", "ei"][rng.below(10)]),
                 _ => w.clone(),
             };
             let target: String = target.chars().filter(|c| crate::code_ok(*c)).take(20).collect();
@@ -74,7 +90,7 @@ pub fn run(env: &Env) -> Report {
             let case = format!("c05-{}-{}", ui, ti);
             t.line(&format!("case {}", case));
             let xdg = env.fresh_xdg(&case);
-            if with_store { std::fs::write(user_dir(&xdg).join("phonetic-candidate-selection.json"), serde_json::to_string(&store_sample()).unwrap()).unwrap(); }
+            if with_store { std::fs::write(user_dir(&xdg).join("phonetic-candidate-selection.json"), serde_json::to_string(&real_store).unwrap()).unwrap(); }
             let ctx = |variant: &str, events: &Vec<String>| json!({"stream": "c05", "layout": PHONETIC, "opts": opts.bits_str(), "target": target, "variant": variant, "store": with_store, "events": events});
             // (a) fresh, direct
             let mut a = match Sess::new(&mut t, &env.data, "a", PHONETIC, opts, &xdg) { Some(mut s) => { s.follow_sel = false; s } None => continue };
